@@ -131,6 +131,10 @@ pub struct Config {
     pub rseed: u64,
     pub argon2i: bool,
     pub deliveries: usize,
+    /// one-time-auth kinds only: n > 0 = the verifier's key and the message come from the
+    /// Poly1305 carry-vector corpus (chunk::special_operands); the delivered tag is arbitrary
+    #[serde(default)]
+    pub special: u8,
 }
 
 #[derive(Clone, Debug, Serialize, Deserialize)]
@@ -220,6 +224,15 @@ impl VerifierWorld {
                 w
             }
             Kind::OtaVerify | Kind::OtaObjVerify => {
+                if let Some((k, m)) = super::chunk::special_operands(self.cfg.special) {
+                    // the verifier's own computation is what is exercised: any tag will do
+                    self.mac_key = k;
+                    let mut w = vec![0xAAu8; 16];
+                    w.extend_from_slice(&m);
+                    self.msg = m;
+                    self.wire = Some(w);
+                    return;
+                }
                 let mut mac = [0u8; 16];
                 crypto_onetimeauth(&mut mac, &msg, &self.mac_key);
                 let mut w = mac.to_vec();
@@ -522,7 +535,8 @@ impl World for VerifierWorld {
         } else {
             *rng.pick(&KINDS[..9])
         };
-        Config { prop: prop.to_string(), kind, rseed: rng.next_u64(), argon2i: rng.chance(1, 3), deliveries: 2 + rng.usize_below(6) }
+        let special = if matches!(kind, Kind::OtaVerify | Kind::OtaObjVerify) && rng.chance(1, 5) { 1 + rng.below(super::chunk::SPECIAL_COUNT as u64) as u8 } else { 0 };
+        Config { prop: prop.to_string(), kind, rseed: rng.next_u64(), argon2i: rng.chance(1, 3), deliveries: 2 + rng.usize_below(6), special }
     }
 
     fn new(cfg: &Config) -> Self {
@@ -610,7 +624,7 @@ impl World for VerifierWorld {
                 };
                 out.probe(&format!("verdict.{}", verdict));
                 out.note(&format!("deliver {} fault={} len={} -> {}", k.name(), fault.kind(), w.len(), verdict));
-                if *fault == Fault::None && !matches!(res, Ok(Some(true))) && k != Kind::PwStrNeedsRehash {
+                if *fault == Fault::None && !matches!(res, Ok(Some(true))) && k != Kind::PwStrNeedsRehash && self.cfg.special == 0 {
                     out.harness_error(format!("control delivery to {} was not accepted ({}) — harness or repo broken", k.name(), verdict));
                 }
                 if let Err((loc, msg)) = &res {
